@@ -7,6 +7,9 @@ DIR=$(dirname "$(readlink -f "$0")")
 BIN=$DIR/target/sim/hqsim
 RUNS=${RUNS:-3000}
 PROPS=${PROPS:-"C01 C08 C10 C12 C15 C17 C18 C19 C20 C16 C04"}
+# (the binary is rebuilt from /repo's working tree first: the last build may have been made
+# against a tree with a seeded change applied)
+(cd "$DIR/hqsim" && CARGO_NET_OFFLINE=true CARGO_TARGET_DIR="$DIR/target" cargo build --profile sim --offline >"$DIR/.build.log" 2>&1) || { echo "build failed (see $DIR/.build.log)"; exit 2; }
 OUT=$(mktemp -d /tmp/hqsim-selftest.XXXXXX)
 cp "$DIR/known_findings.txt" "$OUT/"
 fail=0
